@@ -17,7 +17,7 @@ claimed = {
    note='Trusts the bit-vector reference model and bbolt/roaring as libraries; 64-bit hash collisions assumed away; the NUL-byte column input is reported as a known finding.'),
  'C02': dict(level='exploration', engine=E1, ref='§4 C02',
    technique='bounded-exhaustive enumeration of datasets x expressions x all group-by lists (length 0..6) against a brute-force GROUP BY model',
-   text='All group-by lists of length 0..4 over {a,b,c,unknown} and 5..6 over {a,b} on every dataset of up to 2 (quick) / 3 (thorough) rows over 36 row shapes plus dedicated families (17 rows with values whose byte order differs from numeric/locale order or that continue a common prefix with NUL; 1100 rows with a 1100-valued group-by column), 4-6 expressions, all writer/open configurations: the complete group list (tuples, counts, order, column names) must equal the model. The dedicated family also has columns whose name is two other names joined by a comma / a blank ('a,b', 'a b'), grouped by next to ['a','b'].',
+   text='All group-by lists of length 0..4 over {a,b,c,unknown} and 5..6 over {a,b} on every dataset of up to 2 (quick) / 3 (thorough) rows over 36 row shapes plus dedicated families (17 rows with values whose byte order differs from numeric/locale order or that continue a common prefix with NUL; 1100 rows with a 1100-valued group-by column), 4-6 expressions, all writer/open configurations: the complete group list (tuples, counts, order, column names) must equal the model. The dedicated family also has columns whose name is two other names joined by a comma / a blank ("a,b", "a b"), grouped by next to ["a","b"].',
    note='Trusts the brute-force model; datasets beyond the small scope are not covered.'),
  'C03': dict(level='model_checking', engine=E2, ref='§4 C03',
    technique='explicit-state BFS over query histories of a real cached index (state = cached (key, content checksum) list + preloaded checksum) plus exhaustive ordered query pairs on a fresh cache',
